@@ -104,10 +104,13 @@ Section Dim.
   Lemma grid_perm_id : grid_perm n (fun j => j).
   Proof. unfold grid_perm. rewrite map_id. apply Permutation_refl. Qed.
 
-  Lemma DimT_ok : tysys_ok n Dm fmin DimT (fun j => j).
+  Lemma DimT_ok : tysys_ok n Dm fmin n Dm fmin DimT (fun j => j) 1.
   Proof.
     constructor; simpl.
-    - apply grid_perm_id.
+    - intros j Hj; exact Hj.
+    - apply (perm_sumlaw n _ grid_perm_id).
+    - apply (perm_maxlaw n _ grid_perm_id).
+    - apply (perm_minlaw n _ grid_perm_id).
     - intros a b H. apply d_eqb_eq in H. subst; reflexivity.
     - apply dchi_zero.
     - apply dchi_mul.
@@ -125,12 +128,13 @@ Section Dim.
     - intros a b H x. unfold d_zero_only in H. destruct (d_eqb a (0,0)%Z) eqn:E; [|discriminate].
       injection H as <-. apply d_eqb_eq in E. subst. rewrite dchi_zero, !Rmult_1_l. reflexivity.
     - intros a b H. injection H as <-. split; [reflexivity|apply dchi_pos].
-    - intros a b H j k _ _. injection H as <-. ring.
-    - intros a b H. injection H as <-. reflexivity.
+    - intros a b H v j Hj. injection H as <-. rewrite <- gsum_scal. apply gsum_ext. intros; ring.
+    - intros a b H. injection H as <-. ring.
     - intros i a b H. destruct i; [|discriminate]. injection H as <-. auto.
     - intros a b H. injection H as <-. auto.
     - intros a b H v v' Hv. injection H as <-. apply fmin_hom; [apply dchi_pos|exact Hv].
-    - exact fmin_zero.
+    - split; exact fmin_zero.
+    - tauto.
   Qed.
 End Dim.
 
@@ -190,7 +194,7 @@ Proof.
     - split; intros k; rewrite ?Hy; apply (Hz y Hy). }
   split.
   - intros x d Hin j Hj.
-    apply (check_outputs_sound n Dm fmin (DimT mu nu) (fun j => j) OK (assoc_env Gin) p outs rho rho' HG Hc1' x d Hin j Hj).
+    apply (check_outputs_sound n Dm fmin n Dm fmin (DimT mu nu) (fun j => j) 1 OK (assoc_env Gin) p outs rho rho' HG Hc1' x d Hin j Hj).
   - intros x Hin H0 j Hj.
-    apply (check_typed_sound n Dm fmin (DimT mu nu) (fun j => j) OK (assoc_env Gin) p eqs rho rho' HG Hc2' x Hin H0 j Hj).
+    apply (check_typed_sound n Dm fmin n Dm fmin (DimT mu nu) (fun j => j) 1 OK (assoc_env Gin) p eqs rho rho' HG Hc2' x Hin H0 j Hj).
 Qed.
